@@ -40,4 +40,4 @@ def run(tier):
     return arrays.finish(rep, "for every history of ArrayOps.tla within the bounds and every injection point k of its last operation, the history is "
                          "re-executed with the k-th allocation/element operation throwing; all events, the post-failure probes and the "
                          "final state are validated by Lifecycle.tla (NoLeak, HandleConsistent, no double destroy/deallocate, exception "
-                         "reaches the caller, no allocation where none is needed)", True)
+                         "reaches the caller, no allocation where none is needed)", True, level="fault_enumeration")
